@@ -35,6 +35,10 @@ def row_kind(i):
 
 
 def new_grid(hszinc, version=None):
+    if version == 'auto+header3':
+        # no version given, and it is the header (grid metadata, a column's metadata) that holds the 3.0-only values: the
+        # grid is a 3.0 grid whatever happens to its rows
+        return hszinc.Grid(metadata={'m': 'meta', 'tags': ['a', 'b']}, columns=[('id', []), ('v', [('unit', 'u'), ('opts', {'k': 'v'})]), ('ref', [])])
     g = hszinc.Grid(version=version, metadata={'m': 'meta'}, columns=[('id', []), ('v', [('unit', 'u')]), ('ref', [])])
     return g
 
